@@ -178,8 +178,8 @@ PROPS["C09"] = {
 }
 
 PROPS["C10"] = {
-    "jobs": [{"cmd": "c10", "shards": 32, "shards_thorough": 48}],
-    "cli": False,
+    "jobs": [{"cmd": "c10", "shards": 32, "shards_thorough": 48}, {"cmd": "cli10", "shards": 8}],
+    "cli": True,
     "trusted_base": ["M7 correspondence: every run of a generated history (library in process, real sh, real file system with sentinel mtimes) vs the Lean whole-run model over the same pre-state tree: verdict, all bytes on success, executed-command markers, touch set", "direct oracles on full-tree snapshots of the real runs"],
     "modelled": WHOLE_FILE_MODELLED,
     "level_text": "Lean theorems (frame condition of the model): after any pass in any mode - and after a complete run (input resolution, scanning, every pass the coordinator schedules) - whatever the outcome, every path outside the touch set has the bytes it had before and the touch set only grows; it is extended only by writes/removals of the output path and of resolved temp targets; vocabulary commands change no file; verify's open/finish and clean's operations create nothing. The touch set is compared with real inode/mtime changes by M7, and a full-tree snapshot oracle with decoys at near-miss names checks that only outputs and temp targets change.",
